@@ -161,6 +161,9 @@ class CompoundQuery(qcore.Query):
                     if q.overlaps(subqueries[j]):
                         qq = subqueries.pop(j)
                         q = q.merge(qq, intersect=isand)
+                        # The merged range may now overlap ranges that were
+                        # skipped before
+                        j = i + 1
                     else:
                         j += 1
                 q = subqueries[i] = q.normalize()
